@@ -11,7 +11,7 @@ open YangVerif.IfFeature
     `env`, the library's stack evaluator returns the RFC meaning: `not` binds tighter than
     `and`, `and` tighter than `or`, parentheses group. -/
 theorem eval_eq_sem (env : String → Bool) (o : OrE) :
-    evaluate false env o.toks = some (o.sem env) :=
+    evaluate env o.toks = some (o.sem env) :=
   evaluate_eq_sem env o
 
 /-- the RFC meaning has the stated precedence (sanity of the Spec itself) -/
@@ -85,28 +85,34 @@ theorem checkFeature_all (eval : String → Option Bool) (exprs : List String)
 
 /-- `not (a or b) and c` with nothing enabled: the legacy evaluator says **true** -/
 theorem legacy_not_group_witness :
-    evaluate true (fun _ => false) [.not, .lp, .feat "a", .or, .feat "b", .rp, .and, .feat "c"] = some true ∧
-    evaluate false (fun _ => false) [.not, .lp, .feat "a", .or, .feat "b", .rp, .and, .feat "c"] = some false := by
+    evaluateLegacy (fun _ => false) [.not, .lp, .feat "a", .or, .feat "b", .rp, .and, .feat "c"] = some true ∧
+    evaluate (fun _ => false) [.not, .lp, .feat "a", .or, .feat "b", .rp, .and, .feat "c"] = some false := by
   decide
 
 /-- `a and (b or c) or d` with only d enabled: the legacy evaluator says **false** -/
 theorem legacy_group_or_witness :
-    evaluate true (fun s => s == "d") [.feat "a", .and, .lp, .feat "b", .or, .feat "c", .rp, .or, .feat "d"] = some false ∧
-    evaluate false (fun s => s == "d") [.feat "a", .and, .lp, .feat "b", .or, .feat "c", .rp, .or, .feat "d"] = some true := by
+    evaluateLegacy (fun s => s == "d") [.feat "a", .and, .lp, .feat "b", .or, .feat "c", .rp, .or, .feat "d"] = some false ∧
+    evaluate (fun s => s == "d") [.feat "a", .and, .lp, .feat "b", .or, .feat "c", .rp, .or, .feat "d"] = some true := by
   decide
+
+/-- the pinned tree also accepted texts outside the grammar -/
+theorem legacy_accepts_malformed_witness :
+    evaluateLegacy (fun s => s == "a") [.feat "a", .feat "b", .or, .not] = some true := by decide
 
 /-! #### malformed expressions are errors (concrete shapes; the general claim is carried by the
      exhaustive enumeration in the tie) -/
 theorem malformed_examples (env : String → Bool) :
-    evaluate false env [] = none ∧
-    evaluate false env [.feat "a", .feat "b"] = none ∧
-    evaluate false env [.feat "a", .and] = none ∧
-    evaluate false env [.and, .feat "a"] = none ∧
-    evaluate false env [.lp, .feat "a"] = none ∧
-    evaluate false env [.feat "a", .rp] = none ∧
-    evaluate false env [.lp, .rp] = none ∧
-    evaluate false env [.not] = none := by
-  refine ⟨?_, ?_, ?_, ?_, ?_, ?_, ?_, ?_⟩ <;> simp [evaluate, evalF, switchF, pop1, pop2]
+    evaluate env [] = none ∧
+    evaluate env [.feat "a", .feat "b"] = none ∧
+    evaluate env [.feat "a", .and] = none ∧
+    evaluate env [.and, .feat "a"] = none ∧
+    evaluate env [.lp, .feat "a"] = none ∧
+    evaluate env [.feat "a", .rp] = none ∧
+    evaluate env [.lp, .rp] = none ∧
+    evaluate env [.not] = none ∧
+    evaluate env [.feat "a", .feat "b", .or, .not] = none ∧
+    evaluate env [.feat "a", .not, .or, .feat "b"] = none := by
+  refine ⟨?_, ?_, ?_, ?_, ?_, ?_, ?_, ?_, ?_, ?_⟩ <;> simp [evaluate, evalF, switchF]
 
 /-! #### non-vacuity -/
 example : tokenize "not (a or b) and c" = [.not, .lp, .feat "a", .or, .feat "b", .rp, .and, .feat "c"] := by decide
